@@ -176,4 +176,23 @@ def bsTerms (c : Conv) (edges : List Rat) (cs : List (Bool × Rat)) : Option Rat
   (Stats.mean (bs.flatMap fun b => b.map fun a => (a.2 - ob b) * (a.2 - ob b)),
    Stats.mean (bs.flatMap fun b => b.map fun _ => (ob b - ob cs) * (ob b - ob cs)))
 
+/-! ### the shaded band between two envelopes
+
+Two curves given at common abscissae x_0, x_1, … (`none` = the value is missing there).  The band between
+them is the polygon that runs along the lower curve from left to right and back along the upper curve from
+right to left; a curve passes through exactly the points at which it is defined (abscissa and ordinate both
+present), whatever the other curve does there.  (verif: `-m obsfcst -q lo,hi`, `-m meteo`, the reliability
+confidence band; docstring of `verif.util.fill`: "Fill an area along x, between y_lower and y_upper".) -/
+
+/-- the points a curve is defined at, in the order of the abscissae -/
+def envelope (xs ys : List (Option Rat)) : List (Rat × Rat) :=
+  (xs.zip ys).filterMap fun p =>
+    match p.1, p.2 with
+    | some x, some y => some (x, y)
+    | _, _ => none
+
+/-- the band polygon: the lower envelope forward, then the upper envelope backward -/
+def band (xs lower upper : List (Option Rat)) : List (Rat × Rat) :=
+  envelope xs lower ++ (envelope xs upper).reverse
+
 end VerifModel.Spec.Diagram
